@@ -20,11 +20,15 @@ derive("MC_C06_quick.cfg", "MC_C06_thorough.cfg", {"Ds": "{2, 3, 4}", "Rs": "{1,
 for c in ("C07", "C08", "C09"):
     derive(f"MC_{c}_quick.cfg", f"MC_{c}_thorough.cfg", {"Dims": ALLDIMS, "RPairs": "{11, 12, 13, 21, 31, 22, 23}", "Offs": "{0, 1}", "Modes": '{"S", "L", "SLD"}'})
 derive("MC_C10_quick.cfg", "MC_C10_thorough.cfg", {"Dims": ALLDIMS, "RPairs": "{11, 21, 31, 41}", "Offs": "{0, 1}", "Modes": '{"S", "L", "SLD"}'})
-derive("MC_C11s_quick.cfg", "MC_C11s_thorough.cfg", {"Ns": "{2, 3, 4}", "Dims": "{11, 12, 21, 22, 31, 13}", "Offs": "{0, 1}"})
+derive("MC_C11s_quick.cfg", "MC_C11s_thorough.cfg", {"Ns": "{2, 3, 4}", "Dims": "{11, 12, 21, 22, 31, 13}", "Offs": "{0, 1}",
+                                                      "CondKinds": '{"Cond", "CondDiag", "CondId", "CondIdDiag"}'})
 derive("MC_C11k_quick.cfg", "MC_C11k_thorough.cfg", {"Ns": "{6}", "Offs": "{0, 1, 2}"})
-derive("MC_C04M_quick.cfg", "MC_C04M_thorough.cfg", {"Depth": "4", "Ds": "{2}", "RInit": "{1, 2}", "FactorKinds": '{"Factor", "Rank1", "Linear", "Const", "Measure", "PDF:S"}', "MaxHeap": "6"})
+# measured (8 workers, 1 prime): 814k states / 3 min; the first attempt (6 factor kinds, RInit {1,2}) did not finish in 2 h
+derive("MC_C04M_quick.cfg", "MC_C04M_thorough.cfg", {"Depth": "4", "Ds": "{2}", "RInit": "{2}", "MaxHeap": "6"})
+derive("MC_C04M_quick.cfg", "MC_C04Mf_thorough.cfg", {"Depth": "3", "Ds": "{2}", "RInit": "{1, 2}", "FactorKinds": '{"Measure", "PDF:S"}', "MaxHeap": "5"})
 derive("MC_C04C_quick.cfg", "MC_C04C_thorough.cfg", {"Depth": "3"})
-derive("MC_C12M_quick.cfg", "MC_C12M_thorough.cfg", {"Depth": "4", "RInit": "{3}", "MaxHeap": "6"})
+# measured: 673k states / 2.5 min (MaxHeap 6, MaxR 9 passed 10M states without finishing)
+derive("MC_C12M_quick.cfg", "MC_C12M_thorough.cfg", {"Depth": "4", "RInit": "{3}", "MaxHeap": "5", "MaxR": "6"})
 derive("MC_C12C_quick.cfg", "MC_C12C_thorough.cfg", {"Depth": "3", "CondKinds": '{"Cond", "CondDiag", "CondId", "CondIdDiag"}'})
 derive("MC_C13a_quick.cfg", "MC_C13a_thorough.cfg", {"Rs": "{1, 2, 3, 4}", "Offs": "{0, 1}", "PdfKinds": '{"PDF:S", "PDF:SLD", "DiagPDF:S"}'})
 derive("MC_C13c_quick.cfg", "MC_C13c_thorough.cfg", {"Ds": "{1, 2, 3, 4}", "Rs": "{1, 2, 3, 4}"})
@@ -39,7 +43,7 @@ derive("MC_C15b_quick.cfg", "MC_C15b_thorough.cfg", {"RPairs": "{11, 12, 13, 21,
 derive("MC_C15c_quick.cfg", "MC_C15c_thorough.cfg", {"MaxDeviate": "1", "Rs": "{1, 2, 3}"})
 derive("MC_C16_quick.cfg", "MC_C16_thorough.cfg", {"Dims": "{11, 12, 21, 22, 13, 31}", "Dks": "{1, 2, 3}", "Das": "{2, 3, 4}", "Offs": "{0, 1, 2, 3}"})
 derive("MC_C17_quick.cfg", "MC_C17_thorough.cfg", {"Dks": "{1, 2}", "Das": "{2, 3}", "Offs": "{0, 1, 2, 3, 4, 5}"})
-derive("MC_C19_quick.cfg", "MC_C19_thorough.cfg", {"Rs": "{1, 2, 3, 4}", "Offs": "{0, 1, 2}", "NSamples": "{1, 3, 8}", "Seeds": "{0, 7, 42}"})
+derive("MC_C19_quick.cfg", "MC_C19_thorough.cfg", {"Rs": "{1, 2, 3, 4}", "Offs": "{0, 1, 2}", "NSamples": "{1, 3, 8}", "Seeds": "{0, 7, 42}", "BigN": "{600001, 1500000}"})
 derive("MC_C20_quick.cfg", "MC_C20_thorough.cfg", {"Rs": "{1, 2, 3}", "Offs": "{0, 1, 2, 3}"})
 derive("MC_NN_quick.cfg", "MC_NN_thorough.cfg", {"Dims": "{11, 12, 21, 22, 13, 31}", "Dus": "{1, 2, 3}", "Offs": "{0, 1, 2}"})
 derive("MC_NNq_quick.cfg", "MC_NNq_thorough.cfg", {"Dims": "{11, 12, 21, 22}", "Dus": "{1, 2, 3}", "Offs": "{0, 1, 2}"})
